@@ -1,9 +1,9 @@
 package props
 
 import (
-	"strings"
 	"context"
 	"fmt"
+	"strings"
 	"sync"
 
 	goat "github.com/avos-io/goat"
@@ -23,7 +23,7 @@ type c10Scn struct {
 	U         int    `json:"unary_in_flight"`
 	S         int    `json:"streams_in_flight"`
 	PeerReads bool   `json:"peer_drains_responses"`
-	UnaryKind string `json:"unary_handler"` // ctx-gate | gate-only
+	UnaryKind string `json:"unary_handler"`                            // ctx-gate | gate-only
 	Early     int    `json:"unary_completed_before_the_end,omitempty"` // the first Early unary calls finish before the end cause
 }
 
@@ -51,7 +51,10 @@ func c10Scenarios(tier string, seed int64) []c10Scn {
 		c10Scn{9, 2, true, "ctx-gate", 0}, c10Scn{12, 2, true, "gate-only", 0}, c10Scn{9, 0, true, "ctx-gate", 0},
 		// unary requests that all carry the same id (from different sources: the server does not key
 		// unary calls by id, and a hostile or fanned-in peer may send this)
-		c10Scn{2, 0, true, "ctx-gate/same-id", 0}, c10Scn{3, 1, true, "gate-only/same-id", 0}, c10Scn{4, 2, true, "ctx-gate/same-id", 1})
+		c10Scn{2, 0, true, "ctx-gate/same-id", 0}, c10Scn{3, 1, true, "gate-only/same-id", 0}, c10Scn{4, 2, true, "ctx-gate/same-id", 1},
+		// the client resets its streams before the connection ends: their handlers have been
+		// cancelled but are still on their way out (parked behind their gate) when the end comes
+		c10Scn{1, 3, true, "ctx-gate/reset-streams", 0}, c10Scn{0, 2, true, "gate-only/reset-streams", 0})
 	if tier == "thorough" {
 		r := rng(seed, 0, "c10sc")
 		for len(out) < 150 {
@@ -279,6 +282,20 @@ func c10Run(tier string, seed int64, idx int) *core.Result {
 	}
 	mu.Unlock()
 	res.Stat("handlers_in_flight_at_end_cause", int64(inflight))
+	if strings.HasSuffix(c.Scn.UnaryKind, "/reset-streams") {
+		// (in its own goroutine: a server that has already stopped reading never takes them)
+		go func() {
+			for i := 0; i < nsend; i++ {
+				if reqs[i].GetHeader().GetMethod() == svc.MBidi {
+					if l.A.Write(pctx, &wire.Rpc{Id: reqs[i].GetId(), Header: reqs[i].GetHeader(), Reset_: &goatorepo.Reset{Type: "RST_STREAM"}}) != nil {
+						return
+					}
+				}
+			}
+		}()
+		quiet(tier)
+		res.Stat("streams_reset_by_the_client_before_the_end", 1)
+	}
 	if c.Scn.Early > 0 {
 		gates.Open("u-early")
 		quiet(tier)
@@ -383,11 +400,11 @@ func firstGoatFrame(frames []string) string {
 
 func init() {
 	core.Register(&core.Prop{
-		ID:    "C10",
-		Level: "fault_enumeration",
-		Rule:  "scenarios (quick 18 fixed, thorough 150 seeded) = U in 0..12 unary (more than the 8 workers: the 9th waits in the read loop; some scenarios let the first unary calls complete before the end cause) + S in 0..8 streaming handlers in flight (stream handlers cycle: blocked in receive / sent 2 then wait for ctx / wait for ctx / sending until blocked; unary handlers wait for ctx then a harness gate, or only the gate), responses drained by the scripted client or not; end cause x position: transport read failure after every prefix 0..U+S of the request sequence, Stop after every prefix, transport write failure at every response envelope, plus cancellation of Serve's own context. Distinct = (scenario, cause, position); all non-trivial (an end cause is injected in each).",
-		Plan:  func(tier string, seed int64) int { return len(c10List(tier, seed)) },
-		Run:   c10Run,
+		ID:         "C10",
+		Level:      "fault_enumeration",
+		Rule:       "scenarios (quick 18 fixed, thorough 150 seeded) = U in 0..12 unary (more than the 8 workers: the 9th waits in the read loop; some scenarios let the first unary calls complete before the end cause) + S in 0..8 streaming handlers in flight (stream handlers cycle: blocked in receive / sent 2 then wait for ctx / wait for ctx / sending until blocked; unary handlers wait for ctx then a harness gate, or only the gate), responses drained by the scripted client or not; end cause x position: transport read failure after every prefix 0..U+S of the request sequence, Stop after every prefix, transport write failure at every response envelope, plus cancellation of Serve's own context. Distinct = (scenario, cause, position); all non-trivial (an end cause is injected in each).",
+		Plan:       func(tier string, seed int64) int { return len(c10List(tier, seed)) },
+		Run:        c10Run,
 		Exhaustive: func(string) bool { return true },
 		RequiredStats: func(string) []string {
 			return []string{"handler_contexts_sampled_at_serve_return", "serve_waited_for_gated_stream_handlers", "handlers_in_flight_at_end_cause", "unary_calls_completed_before_end_cause"}
